@@ -65,7 +65,7 @@ def version_part(ctx, model, rng):
     ctx.evaluations += n
     ctx.nontrivial.update(f'w{w}' for w in list(words)[:5000])
     # tuple/encode direction and comparison
-    for _ in range(3000 if ctx.quick else 200000):
+    for _ in range(ctx.n(3000, 200000)):
         a = (int(rng.integers(0, 4)), int(rng.integers(0, 1024)), int(rng.integers(0, 1024)), int(rng.integers(0, 2)))
         b = (a[0], a[1], a[2] + int(rng.integers(-1, 2)), int(rng.integers(0, 2))) if rng.random() < .5 else \
             (int(rng.integers(0, 4)), int(rng.integers(0, 1024)), int(rng.integers(0, 1024)), int(rng.integers(0, 2)))
@@ -201,7 +201,7 @@ def file_matches_reader(ctx, path, desc, what):
 
 
 def writers_part(ctx, rng):
-    n_cases = 40 if ctx.quick else 800
+    n_cases = ctx.n(40, 800)
     for k in range(n_cases):
         kind = ['numpy', 'segy', '2d', 'irregular', 'segy', 'numpy'][k % 6]
         if kind == '2d':
